@@ -18,9 +18,12 @@ character doubled inside it (repair 687226d), for every name without "/", "--" a
 What is still *not* true of the code, and therefore only stated as `ColumnsFullStatement` with a
 counterexample: the recovery of names for all of SQLite's CREATE TABLE syntax (a "/" inside a quoted
 name is enough: open finding C07-09, "/" and "--" inside names, literals and expressions; further
-open findings: C07-13 whitespace runs inside quoted names, C07-03 STRICT).
-The model mirrors /repo after the repairs 65104eb … 07e13e3, 687226d, 41d65d3 (C07-01, -02, -04, -05,
--06, -07, -08, -10, -11, -12, -14; C07-15 is in output.py).
+open findings: C07-13 whitespace runs inside quoted names, C07-03 STRICT, C07-18 bracket names that
+begin or end with "[": `BracketFullStatement` with its own counterexample, C07-17 SQLite's reading of
+`GENERATED/**/ALWAYS` as a declared type).  (5) `[bracket]` names: read up to the first "]", a newline
+included (repair 417a203), and what the `.strip("[]")` does to them.
+The model mirrors /repo after the repairs 65104eb … 07e13e3, 687226d, 41d65d3, 417a203 (C07-01, -02,
+-04, -05, -06, -07, -08, -10, -11, -12, -14, -16; C07-15 is in output.py).
 
 That the schema *rows* of every version are the rows of the page-1 b-tree (type, name, tbl_name,
 rootpage, sql) is the business of Model.Database / Model.Wal (db.dump / vh.dump correspondence,
@@ -28,6 +31,7 @@ C01/C02); this file is about the SQL text of table rows.
 -/
 import SqliteDissect.Proofs.Schema
 import SqliteDissect.Proofs.SchemaQuoted
+import SqliteDissect.Proofs.SchemaBracket
 
 namespace SqliteDissect.Properties.C07
 open SqliteDissect SqliteDissect.Model.Schema SqliteDissect.Spec.Ddl
@@ -220,6 +224,16 @@ example : (parseColumn (exA.name ++ ['\t'] ++ ['I','N','T','E','G','E','R'])).to
     (fun c => (c.name, c.affinity)) = some (['i','d'], .integer) := by
   decide +kernel
 
+/-- Open finding C07-17, a witness on the model side: for `b GENERATED/**/ALWAYS AS (1)` the code
+finds no declared type (BLOB); SQLite 3.40.1 records the declared type `GENERATED/**/` (its removal
+of a trailing "generated always" from the type name needs the two words separated by whitespace
+only), for which `Spec.typeAffinity` — and SQLite — say NUMERIC. -/
+example :
+    (parseColumn ['b', ' ', 'G','E','N','E','R','A','T','E','D', '/', '*', '*', '/', 'A','L','W','A','Y','S', ' ', 'A','S', ' ', '(', '1', ')']).toOption.map
+        (fun c => (c.name, c.derived, c.affinity)) = some (['b'], none, .blob) ∧
+    Spec.typeAffinity ['G','E','N','E','R','A','T','E','D', '/', '*', '*', '/'] = .numeric := by
+  exact ⟨by decide +kernel, by decide +kernel⟩
+
 /-! ### Quoted column names -/
 
 /-- `ColumnDefinition.__init__` on a column whose name is written in quotes (`q` one of `"`, `'`,
@@ -273,12 +287,62 @@ example :
       some (['t', '"', '1'], [['x', '"', 'y'], ['i', 't', '\'', 's'], ['a', '`', 'b']], [.integer, .text, .blob]) := by
   decide +kernel
 
-/-- The fourth quoting style, `[…]`, has no doubling; its regex is unchanged (`^\[(.*?)\]`), so a
-newline inside a bracket name is still rejected (new open finding C07-16) while the three quote
-styles now read it (`[^Q]` is a negated class) -/
-example : Proofs.Schema.errorOf (parseColumn ['[', 'a', '\n', 'b', ']', ' ', 'I', 'N', 'T']) = some .parseError ∧
-    (parseColumn ['"', 'a', '\n', 'b', '"', ' ', 'I', 'N', 'T']).toOption.map (·.name) = some ['a', '\n', 'b'] := by
-  exact ⟨by decide +kernel, by decide +kernel⟩
+/-! ### Bracket names
+
+The fourth quoting style, `[…]`, has no doubling: the name ends at the first "]".  Since commit 417a203
+the regex is `^\[([^\]]*)\]` (a negated class: a newline inside the brackets is read, finding C07-16);
+the name is still taken as the matched text with `.strip("[]")`. -/
+
+/-- The name reader shared by table and index names on `[n]` followed by anything, for every n
+without "]" (a newline, quote characters, parentheses, commas, "/", "--", whitespace runs allowed):
+the match is the whole bracket, the rest of the statement is untouched, and the name is n with
+`.strip("[]")` — n without its leading and its trailing "[" characters (`stripSet bracketStripSet n`;
+"]" cannot occur in n). -/
+theorem row_name_bracketed (n rest : Str) (hn : ']' ∉ n) :
+    rowNameAndRest ('[' :: n ++ ']' :: rest) = .ok (stripSet bracketStripSet n, rest) := by
+  exact Proofs.Schema.rowNameAndRest_bracket n rest hn
+
+/-- Therefore: a name that neither begins nor ends with "[" is read whole (`BracketSafe`: no "]",
+first and last character not "["; the empty name is `BracketSafe`). -/
+theorem row_name_bracketed_exact (n rest : Str) (h : Proofs.Schema.BracketSafe n) :
+    rowNameAndRest ('[' :: n ++ ']' :: rest) = .ok (n, rest) := by
+  rw [Proofs.Schema.rowNameAndRest_bracket n rest h.no_close, Proofs.Schema.stripSet_bracketSafe n h]
+
+/-- `ColumnDefinition.__init__` on a column whose name is written in brackets, followed by nothing
+or by any non-empty whitespace run and a one-word type: SQLite's name and affinity, for every
+`BracketSafe` and `QuotedSafe` name (no "/", "--", whitespace run: C07-09, C07-13 as for quoted names). -/
+theorem columns_bracketed_partial (d : ColDef) (hb : Proofs.Schema.BracketSafe d.name)
+    (hname : Proofs.Schema.QuotedSafe d.name)
+    (hty : ∀ t, d.type = some t → isIdent t = true ∧ beginsWithKeyword columnKeywords t = false)
+    (ws : Str) (hwne : ws ≠ []) (hws : ∀ w ∈ ws, isSpace w = true) :
+    ∃ col, parseColumn ('[' :: d.name ++ [']'] ++ (match d.type with | none => [] | some t => ws ++ t)) = .ok col ∧
+      col.name = d.name ∧ col.affinity = d.affinity := by
+  exact Proofs.Schema.parseColumn_bracketed d hb hname hty ws hwne hws
+
+def exBr : ColDef := ⟨['a', '\n', 'b', '[', '"', ' ', '(', ',', 'c'], some ['I', 'N', 'T']⟩
+
+/-- non-vacuity; the former witness of C07-16 `[a<NL>b] INT` -/
+example : Proofs.Schema.BracketSafe exBr.name ∧ Proofs.Schema.QuotedSafe exBr.name :=
+  ⟨⟨by decide, by decide, by decide⟩, ⟨by decide, by decide +kernel, by decide +kernel⟩⟩
+
+example : (parseColumn ['[', 'a', '\n', 'b', ']', ' ', 'I', 'N', 'T']).toOption.map (fun c => (c.name, c.affinity)) =
+      some (['a', '\n', 'b'], .integer) ∧
+    (parseColumn ['"', 'a', '\n', 'b', '"', ' ', 'I', 'N', 'T']).toOption.map (·.name) = some ['a', '\n', 'b'] ∧
+    Proofs.Schema.errorOf (rowNameAndRest ['[', 'a', 'b']) = some .parseError := by
+  exact ⟨by decide +kernel, by decide +kernel, by decide +kernel⟩
+
+/-- The statement for *every* bracket name is false (new finding C07-18): `.strip("[]")` also removes
+"[" characters that belong to the name.  `[[a]` is SQLite's column `[a`, `[a[]` is `a[`; both are
+read as `a`. -/
+def BracketFullStatement : Prop :=
+  ∀ (n : Str), ']' ∉ n → n ≠ [] → ∃ col, parseColumn ('[' :: n ++ [']']) = .ok col ∧ col.name = n
+
+theorem bracket_counterexample : ¬ BracketFullStatement := by
+  exact Proofs.Schema.bracket_counterexample
+
+example : (parseColumn ['[', '[', 'a', ']', ' ', 'I', 'N', 'T']).toOption.map (·.name) = some ['a'] ∧
+    (parseColumn ['[', 'a', '[', ']', ' ', 'I', 'N', 'T']).toOption.map (·.name) = some ['a'] := by
+  exact Proofs.Schema.bracket_edge_renamed
 
 /-- unterminated and oddly terminated names, as the regex engine backtracks: `"abc` has no match;
 `"a""` is `"a"` followed by `"`; `"""` is the empty name followed by `"`; `""""` is the name `"` -/
